@@ -6,7 +6,7 @@ use crate::c12::Ty;
 use crate::cat::cat;
 use crate::lex::*;
 use crate::wopts::{self, WOpts};
-use catalogue::{INT_BITS, INT_SIGNED};
+use catalogue::{FLOAT_NAMES, INT_BITS, INT_SIGNED};
 use proptest::prelude::*;
 use serde_json::{json, Value};
 use vcore::fmodel::FormatModel;
@@ -277,6 +277,64 @@ fn check_ascii(c: &ACase, l: &mut Local) -> CaseResult {
     Ok(())
 }
 
+/// (e) ASCII-only output under *any* options the library's own validation accepts: raw bytes for
+/// the punctuation and special strings that break the documented letter rule in one byte
+#[derive(Clone, Debug)]
+pub struct RCase {
+    pub fi: usize,
+    pub bits: u64,
+    pub exponent: u8,
+    pub point: u8,
+    pub nan: usize,
+    pub inf: usize,
+}
+
+fn rcase_json(c: &RCase) -> Value {
+    let st = crate::c18::strs();
+    json!({"kind": "ascii-raw", "type": FLOAT_NAMES[c.fi], "bits": format!("{:#x}", c.bits), "exponent": c.exponent, "point": c.point, "nan_idx": c.nan, "inf_idx": c.inf,
+           "nan_string": st[c.nan % st.len()].map(show), "inf_string": st[c.inf % st.len()].map(show)})
+}
+
+fn check_ascii_raw(c: &RCase, l: &mut Local) -> CaseResult {
+    let st = crate::c18::strs();
+    let (nan, inf) = (st[c.nan % st.len()], st[c.inf % st.len()]);
+    let o = lexical_core::WriteFloatOptions::builder().exponent(c.exponent).decimal_point(c.point).nan_string(nan).inf_string(inf).build_unchecked();
+    l.eval(1);
+    if !o.is_valid() {
+        l.class("raw-options:rejected-by-the-library");
+        return Ok(());
+    }
+    l.class("raw-options:accepted-by-the-library");
+    let k = kind_of(c.fi);
+    if (k.is_nan(c.bits) && nan.is_none()) || (k.is_inf(c.bits) && inf.is_none()) {
+        return Ok(());
+    }
+    l.nontrivial_hash(splitmix(c.bits ^ ((c.exponent as u64) << 56) ^ ((c.point as u64) << 48) ^ ((c.nan as u64 & 0xff) << 40) ^ ((c.inf as u64 & 0xff) << 32)) ^ c.fi as u64);
+    if l.want_sample() {
+        l.sample(rcase_json(c));
+    }
+    const STD: u128 = lexical_core::format::STANDARD;
+    let (core, facade) = if c.fi == 0 { wr::<f32, STD>(f32::from_bits(c.bits as u32), &o) } else { wr::<f64, STD>(f64::from_bits(c.bits), &o) };
+    for (which, r) in [("lexical_core::write_with_options", &core), ("lexical::to_string_with_options", &facade)] {
+        if let Ok(out) = r {
+            if let Some(b) = out.iter().find(|&&b| b >= 0x80) {
+                return Err(Fail::new(format!(
+                    "{} bits {:#x} with exponent {:#04x} point {:#04x} nan {:?} inf {:?} (accepted by WriteFloatOptions::is_valid): {which} emitted {:?} containing the non-ASCII byte {:#04x}",
+                    FLOAT_NAMES[c.fi],
+                    c.bits,
+                    c.exponent,
+                    c.point,
+                    nan.map(show),
+                    inf.map(show),
+                    show(out),
+                    b
+                )));
+            }
+        }
+    }
+    Ok(())
+}
+
 macro_rules! default_writes {
     ($rep:ident, $ctx:ident, $n:expr, int: $($t:ident)*) => {$(
         run_prop($rep, $ctx, &format!("default-api:to_string:{}", stringify!($t)), $n, || gen::int_value(<$t as IntT>::BITS, <$t as IntT>::SIGNED, 10),
@@ -292,7 +350,9 @@ pub fn run(ctx: &Ctx, rep: &mut Report) {
         u8} x generated valid write options (digits, breaks, trim, round mode, punctuation incl. tab/space/~, special strings): bytes \
         equal, panic iff panic, String is valid UTF-8; (c) lexical::parse / parse_partial / parse_with_options / \
         parse_partial_with_options vs lexical_core on generated texts (numbers, mutations, raw bytes) for {f32, f64, i64, u8, u128, \
-        i16}; (d) every compiled catalogue writer x generated values x valid options: every emitted byte is < 0x80. non-trivial = \
+        i16}; (d) every compiled catalogue writer x generated values x valid options: every emitted byte is < 0x80; (e) the same for \
+        raw option bytes (any punctuation byte, special strings that break the letter rule in one byte, e.g. a letter with the \
+        high bit set) whenever WriteFloatOptions::is_valid() accepts them. non-trivial = \
         non-default options or a non-STANDARD format (b, d), a text of >= 2 bytes (c); distinct by hashing."
         .into();
     rep.assumptions = vec!["'valid options' = the options builder's is_valid() holds (ASCII punctuation, letter-only special strings)".into()];
@@ -421,6 +481,33 @@ pub fn run(ctx: &Ctx, rep: &mut Report) {
         acase_json,
         check_ascii,
     );
+    // (e)
+    run_prop(
+        rep,
+        ctx,
+        "ascii-only:raw-options-the-library-accepts",
+        ctx.n(400_000, 40_000_000),
+        move || {
+            let ns = crate::c18::strs().len();
+            let punct = || prop_oneof![3 => prop_oneof![Just(b'e'), Just(b'.'), Just(b','), Just(b'^'), Just(b' '), Just(b'\t'), Just(b'~'), Just(b'p')], 2 => any::<u8>(), 1 => 0x7eu8..=0x82];
+            // pool indices 0..9 are None / valid NaN strings, 9..17 valid infinity strings
+            let nidx = prop_oneof![3 => 0usize..9, 2 => 0usize..ns];
+            let iidx = prop_oneof![1 => 0usize..2, 3 => 9usize..17, 2 => 0usize..ns];
+            (0usize..2, any::<u8>(), punct(), punct(), nidx, iidx)
+                .prop_flat_map(|(fi, kind, exponent, point, nan, inf)| {
+                    let k = kind_of(fi);
+                    let bits = match kind % 8 {
+                        0 | 1 => Just(k.inf_bits() | 1 | ((kind as u64 & 0x80) << (k.total_bits() - 8))).boxed(),
+                        2 | 3 => Just(k.inf_bits() | ((kind as u64 & 0x80) << (k.total_bits() - 8))).boxed(),
+                        _ => gen::finite_bits(k),
+                    };
+                    bits.prop_map(move |bits| RCase { fi, bits, exponent, point, nan, inf })
+                })
+                .boxed()
+        },
+        rcase_json,
+        check_ascii_raw,
+    );
 }
 
 pub fn replay(_ctx: &Ctx, case: &Value) -> CaseResult {
@@ -435,6 +522,11 @@ pub fn replay(_ctx: &Ctx, case: &Value) -> CaseResult {
         Some("facade-parse") => {
             let fmt = ff(case["facade_format"].as_str().unwrap_or("STANDARD")).ok_or_else(|| Fail::new("facade format not available in this configuration"))?;
             check_facade_parse(&PCase { fmt, ty: case["ty"].as_u64().unwrap_or(1) as u8, text: unhex(case["text_hex"].as_str().unwrap_or("")) }, &mut l)
+        },
+        Some("ascii-raw") => {
+            let bits = u64::from_str_radix(case["bits"].as_str().unwrap_or("0x0").trim_start_matches("0x"), 16).unwrap_or(0);
+            let u = |k: &str| case[k].as_u64().unwrap_or(0);
+            check_ascii_raw(&RCase { fi: if case["type"].as_str() == Some("f32") { 0 } else { 1 }, bits, exponent: u("exponent") as u8, point: u("point") as u8, nan: u("nan_idx") as usize, inf: u("inf_idx") as usize }, &mut l)
         },
         Some("ascii") => {
             let entry = cat().idx(case["format"].as_str().unwrap_or("STANDARD")).ok_or_else(|| Fail::new("format not compiled"))?;
